@@ -615,17 +615,29 @@ def rule_x17(text, log):
 
 def rule_x18(text, log, names):
     """X18: scalar replacement of a local array whose every access uses a literal index (`vs[12]` -> `vs_12`, the declaration
-    `let mut vs: [T; N] = [0; N];` -> N scalar declarations, `vs[a..b].copy_from_slice(e)` -> element assignments from `e[k - a]`).
+    `let mut vs: [T; N] = [0; N];` -> N scalar declarations, `vs[a..b].copy_from_slice(e)` -> element assignments from `e[k - a]`;
+    with `name:N`, `let mut name = *src;` -> N scalar declarations initialised from `src[k]`).
     Any other use of the array makes the rule inapplicable (LostAnchor).  The transformation is the classic scalar replacement
     of aggregates; it is applied because the solver's cost on long chains of writes through one array is quadratic."""
     t = text
     for name in names:
         m = mask(t)
-        dm = re.search(r'let\s+mut\s+' + re.escape(name) + r'\s*:\s*\[\s*([A-Za-z0-9_]+)\s*;\s*(\d+)\s*\]\s*=\s*\[\s*0\s*;\s*\d+\s*\]\s*;', m)
-        if not dm:
-            raise LostAnchor("x18: declaration of %s not in the expected form" % name)
-        ty, n = dm.group(1), int(dm.group(2))
-        decl = " ".join('let mut %s_%d: %s = 0;' % (name, k, ty) for k in range(n))
+        if ':' in name:
+            # `name:N`: the local is a copy of an array behind a reference, `let mut name = *src;` with N elements (a wrong N
+            # leaves an undeclared scalar or an out-of-range index: never silent)
+            name, n = name.split(':')
+            n = int(n)
+            dm = re.search(r'let\s+mut\s+' + re.escape(name) + r'\s*=\s*\*\s*([a-z_][A-Za-z0-9_]*)\s*;', m)
+            if not dm:
+                raise LostAnchor("x18: declaration of %s not in the expected form" % name)
+            ty = 'copy of *' + dm.group(1)
+            decl = " ".join('let mut %s_%d = %s[%d];' % (name, k, dm.group(1), k) for k in range(n))
+        else:
+            dm = re.search(r'let\s+mut\s+' + re.escape(name) + r'\s*:\s*\[\s*([A-Za-z0-9_]+)\s*;\s*(\d+)\s*\]\s*=\s*\[\s*0\s*;\s*\d+\s*\]\s*;', m)
+            if not dm:
+                raise LostAnchor("x18: declaration of %s not in the expected form" % name)
+            ty, n = dm.group(1), int(dm.group(2))
+            decl = " ".join('let mut %s_%d: %s = 0;' % (name, k, ty) for k in range(n))
         t = t[:dm.start()] + decl + t[dm.end():]
         # range copies
         while True:
